@@ -130,6 +130,91 @@ func checkC16(w *World, c *Check, tier string) {
 	}
 	c.ok("C16.frame", "closure", "-", fmt.Sprintf("%d field stores in the flattening closures examined", len(assigns)))
 
+	// ---- siblings: within one entry point, properties of the same Go type are flattened by the same helper ----
+	byFn := map[*ssa.Function]map[string]map[string][]string{} // fn -> type kind -> helper -> fields
+	for _, a := range assigns {
+		if len(a.target.Idx) != 1 || !isFlattener(a.helper) {
+			continue
+		}
+		kind := "item"
+		if st, ok := a.target.RootType.Underlying().(*types.Struct); ok && isItemCollectionType(w, st.Field(a.target.Idx[0]).Type()) {
+			kind = "list"
+		}
+		if byFn[a.fn] == nil {
+			byFn[a.fn] = map[string]map[string][]string{}
+		}
+		if byFn[a.fn][kind] == nil {
+			byFn[a.fn][kind] = map[string][]string{}
+		}
+		byFn[a.fn][kind][a.helper.Name()] = append(byFn[a.fn][kind][a.helper.Name()], a.target.Names[0])
+	}
+	for fn, kinds := range byFn {
+		for kind, helpers := range kinds {
+			key := funcName(fn) + ":" + kind
+			if len(helpers) <= 1 {
+				c.ok("C16.siblings", key, w.FuncPos(fn), fmt.Sprintf("all %s properties use %v", kind, sortedKeys(helpers)))
+				continue
+			}
+			// the odd ones out: helpers used by a strict minority
+			total := 0
+			for _, fs := range helpers {
+				total += len(fs)
+			}
+			var odd []string
+			for h, fs := range helpers {
+				if len(fs)*2 < total {
+					odd = append(odd, fmt.Sprintf("%v via %s", fs, h))
+				}
+			}
+			sort.Strings(odd)
+			if len(odd) == 0 {
+				odd = []string{fmt.Sprintf("%v", helpers)}
+			}
+			c.bad("C16.siblings", key, w.FuncPos(fn), fmt.Sprintf("%s flattens sibling %s properties with different helpers (%s): the helpers differ in which shapes they replace (single item vs list of items), so the odd property keeps embedded objects the others replace", funcName(fn), kind, strings.Join(odd, "; ")))
+		}
+	}
+
+	// ---- noinvent: the identifiers that flattening (and de-duplication, on which the list variant is built) put into
+	// a list are exactly what GetID/GetLink of the member returned — never a rewritten or constant IRI ----
+	for _, fname := range []string{"ItemCollectionDeduplication", "FlattenItemCollection"} {
+		f := w.Func(fname)
+		if f == nil {
+			c.bad("C16.noinvent", "anchor:"+fname, "-", "not found")
+			continue
+		}
+		n := 0
+		checkVal := func(v ssa.Value, in ssa.Instruction, what string) {
+			n++
+			if msg := onlyIdentifierOf(v, 0, map[ssa.Value]bool{}); msg != "" {
+				c.bad("C16.noinvent", fmt.Sprintf("%s:%s#%d", fname, what, n), w.InstrPos(in), fmt.Sprintf("%s puts into the %s a value that is not simply GetID()/GetLink() of a member: %s — an IRI can appear that was not in the original", fname, what, msg))
+			} else {
+				c.ok("C16.noinvent", fmt.Sprintf("%s:%s#%d", fname, what, n), w.InstrPos(in), "the member's own id/link")
+			}
+		}
+		for _, b := range f.Blocks {
+			for _, in := range b.Instrs {
+				switch x := in.(type) {
+				case *ssa.Call:
+					if bi, ok := x.Common().Value.(*ssa.Builtin); ok && bi.Name() == "append" && isItemListValue(w, x) {
+						// appended to the result list (a fresh local list), not to the caller's lists
+						if elems, ok := variadicElems(x.Common().Args[1]); ok {
+							for _, el := range elems {
+								if isSpliceTail(x.Common().Args[1]) {
+									continue
+								}
+								checkVal(el, in, "result list")
+							}
+						}
+					}
+				case *ssa.Store:
+					if ia, ok := x.Addr.(*ssa.IndexAddr); ok && isItemListValue(w, ia.X) {
+						checkVal(x.Val, in, "flattened list")
+					}
+				}
+			}
+		}
+	}
+
 	// ---- guard: identifier-returning flatteners ----
 	for _, f := range w.Funcs {
 		if !isFlattener(f) || w.itemLikeIface(f.Signature.Params().At(0).Type()) == nil {
@@ -500,4 +585,66 @@ func guardMentions(pr *prover, g guard, p *ssa.Parameter) bool {
 		}
 	}
 	return false
+}
+
+func isSpliceTail(v ssa.Value) bool {
+	_, ok := unwrap(v).(*ssa.Slice)
+	if !ok {
+		return false
+	}
+	_, isAlloc := unwrap(v).(*ssa.Slice).X.(*ssa.Alloc)
+	return !isAlloc
+}
+
+// onlyIdentifierOf: v is (a phi / conversion of) the result of GetID()/GetLink() invoked on some value, possibly
+// spilled through a local; returns "" when so, otherwise what else it is.
+func onlyIdentifierOf(v ssa.Value, d int, seen map[ssa.Value]bool) string {
+	if d > 12 {
+		return "value too complex to trace"
+	}
+	if seen[v] {
+		return ""
+	}
+	seen[v] = true
+	switch x := v.(type) {
+	case *ssa.MakeInterface:
+		return onlyIdentifierOf(x.X, d+1, seen)
+	case *ssa.ChangeInterface:
+		return onlyIdentifierOf(x.X, d+1, seen)
+	case *ssa.ChangeType:
+		return onlyIdentifierOf(x.X, d+1, seen)
+	case *ssa.Phi:
+		for _, e := range x.Edges {
+			if msg := onlyIdentifierOf(e, d+1, seen); msg != "" {
+				return msg
+			}
+		}
+		return ""
+	case *ssa.UnOp:
+		if al, ok := x.X.(*ssa.Alloc); ok {
+			for _, st := range storesTo(al) {
+				if msg := onlyIdentifierOf(st.Val, d+1, seen); msg != "" {
+					return msg
+				}
+			}
+			return ""
+		}
+		return "loaded from " + shortVal(x.X)
+	case *ssa.Call:
+		if x.Common().IsInvoke() && (x.Common().Method.Name() == "GetID" || x.Common().Method.Name() == "GetLink") {
+			return ""
+		}
+		if cal := x.Common().StaticCallee(); cal != nil {
+			return "result of " + cal.Name() + "(…)"
+		}
+		return "result of a call"
+	case *ssa.Const:
+		if x.Value == nil {
+			return ""
+		}
+		return "the constant " + x.Value.String()
+	case *ssa.Convert:
+		return onlyIdentifierOf(x.X, d+1, seen)
+	}
+	return fmt.Sprintf("%T", v)
 }
